@@ -280,3 +280,15 @@ MUTATIONS += [
     ("registry-cmd-errors-unguarded", ["C18"], RG, "            try:\n                reply = cmdfunc(addrinfo[0], *args)\n            except Exception:\n                self.logger.exception('error executing function')\n            else:\n                self._send(brine.dump(reply), addrinfo)",
      "            reply = cmdfunc(addrinfo[0], *args)\n            self._send(brine.dump(reply), addrinfo)"),
 ]
+
+MUTATIONS += [
+    # ---- C07: hostile peer
+    ("pickle-switch-dropped", ["C07"], P, '        if not self._config["allow_pickle"]:\n            raise ValueError("pickling is disabled")\n', "        pass\n"),
+    ("local-objects-class-attribute", ["C07", "C16"], P, "        self._local_objects = RefCountingColl()\n", "        self._local_objects = globals().setdefault('_SHARED_OBJECTS', RefCountingColl())\n"),
+    
+    ("callattr-bare-getattr", ["C07", "C06"], P, "        obj = self._handle_getattr(obj, name)\n        return self._handle_call(obj, args, kwargs)", "        obj = getattr(obj, name)\n        return self._handle_call(obj, args, kwargs)"),
+    ("class-factory-imports-module", ["C07"], N, "                _module = sys.modules.get(name_pack[:cursor])", "                _module = sys.modules.get(name_pack[:cursor])\n                if _module is None and cursor == name_pack.rfind('.'):\n                    try:\n                        _module = __import__(name_pack[:cursor], None, None, '*')\n                    except Exception:\n                        _module = None"),
+    ("getattr-allows-dunder-class", ["C07", "C06"], P, "        plain |= config[\"allow_safe_attrs\"] and name in config[\"safe_attrs\"]", "        plain |= config[\"allow_safe_attrs\"] and (name in config[\"safe_attrs\"] or name == \"__class__\")"),
+    ("setattr-default-on", ["C07"], P, "    allow_setattr=False,", "    allow_setattr=True,"),
+    ("del-handler-removes-any-key", ["C07"], P, "        self._local_objects.decref(get_id_pack(obj), count)", "        self._local_objects.decref(get_id_pack(obj), count)\n        if count > 500:\n            self._local_root.__dict__.clear()"),
+]
